@@ -53,6 +53,48 @@ def link_table(rng):
     return table
 
 
+def _grouping_cases(rng, kind, table, corr_expr, corr_exp, corr_case, ctx):
+    """Model/Group2 against tertiary_v2.Structure on the PDB text of the table, as written and with its lines shuffled
+    (residues interleaved: groupby must still collect every atom of a key); residues canonicalised to first-occurrence order."""
+    from rnapolis.parser_v2 import parse_pdb_atoms
+    from rnapolis.tertiary_v2 import Structure
+    text = genatoms.emit_pdb(table)
+    atom_lines = [ln for ln in text.split("\n") if ln.startswith(("ATOM", "HETATM"))]
+    variants = [("as-written", atom_lines)]
+    if len(atom_lines) <= 60:
+        sh = list(atom_lines)
+        rng.shuffle(sh)
+        variants.append(("shuffled", sh))
+    for vname, lines in variants:
+        if not lines:
+            continue
+        try:
+            st = Structure(parse_pdb_atoms("\n".join(lines) + "\n"))
+            res = sorted(st.residues, key=lambda r: int(r.atoms.index[0]))
+            groups = [[int(x) for x in r.atoms["serial"]] for r in res]
+            by_chain = {}
+            for r in st.residues:
+                by_chain.setdefault(r.chain_id, []).append(r)
+            segs = st.connected_residues
+        except Exception as e:  # noqa: BLE001
+            ctx.violation(f"the table-level reader raised {type(e).__name__}: {e}", {"kind": kind, "variant": vname, "file": "\n".join(lines)[:3000]})
+            continue
+        case = {"kind": kind, "variant": vname, "file": "\n".join(lines)[:3000]}
+        corr_expr.append(f"run_residues_v2 {lit(lines)}")
+        corr_exp.append(groups)
+        corr_case.append((case, "residues"))
+        ctx.coverage["grouping_cases"] = ctx.coverage.get("grouping_cases", 0) + 1
+        for ch, rs in by_chain.items():
+            rs = sorted(rs, key=lambda r: (r.residue_number, r.insertion_code or ""))
+            links = [bool(a.is_connected(b)) for a, b in zip(rs, rs[1:])]
+            pos = {id(r): i for i, r in enumerate(rs)}
+            want = [[pos[id(r)] for r in seg] for seg in segs if seg and id(seg[0]) in pos]
+            corr_expr.append(f"run_segments {lit(links)} {len(rs)}%nat")
+            corr_exp.append(want)
+            corr_case.append((dict(case, chain=ch, links=links), "segments"))
+            ctx.coverage["segment_cases"] = ctx.coverage.get("segment_cases", 0) + 1
+
+
 def v1_residues(path):
     from rnapolis.parser import read_3d_structure
     with open(path) as f:
@@ -102,9 +144,11 @@ def run(ctx):
         tables.append(("links", link_table(rng)))
     for name in ["1DFU_1_M-N.cif", "6INQ.cif", "4WTI_1_T-P.cif", "1HMH_1_E.cif"] + ([] if ctx.quick else ["1E7K_1_C.cif", "184D.cif"]):
         tables.append((name, corpus_table(name, rng)))
+    corr_expr, corr_exp, corr_case = [], [], []
     for kind, table in tables:
         if not table:
             continue
+        _grouping_cases(rng, kind, table, corr_expr, corr_exp, corr_case, ctx)
         results = {}
         ok = True
         for fmt in ("pdb", "cif"):
@@ -163,3 +207,14 @@ def run(ctx):
                         ctx.violation("glycosidic torsion magnitudes from the two readers differ", {"kind": kind, "residue": r.full_name, "v1": r.chi, "v2": float(c)})
         if len(ctx.coverage["samples"]) < 2:
             ctx.sample({"kind": kind, "residues": [list(x[0]) for x in results["pdb"][1][:4]]})
+    if not ctx.model_ok:
+        return
+    bad, err = ctx.coq_mismatches("grp", IMPORTS, corr_expr, corr_exp, shard=40)
+    if err:
+        ctx.violation("grouping cases failed to evaluate", {"error": err}, has_input=False)
+    if bad:
+        shown = ctx.coq_show(IMPORTS, [corr_expr[i] for i in bad[:5]])
+        for n, i in enumerate(bad[:10]):
+            case, what = corr_case[i]
+            ctx.violation(f"model and tertiary_v2 disagree on {what}", {"case": case, "implementation": corr_exp[i], "model": shown[n] if n < len(shown) else None,
+                                                                         "correspondence": "Run.RIO." + corr_expr[i].split()[0]}, has_input=False)
